@@ -113,8 +113,9 @@ def selftest():
 
 def strategy(tier):
     single = tc.tide_case_strategy(tier, kinds=('single',))
+    direct = tc.tide_case_strategy(tier, kinds=('direct',), array_fraction=1)
     ctl = tc.tide_case_strategy(tier, kinds=('ctl_default',))
-    return tc.weighted([single, ctl], [60, 1])
+    return tc.weighted([single, direct, ctl], [50, 10, 1])
 
 
 def _base_case(**over):
@@ -141,6 +142,10 @@ def fixed_cases(tier):
            _base_case(kind='ctl_default', body={'rheology': 'ctl'}, pt={'e': 0.05}),
            _base_case(kind='ctl_default', body={'rheology': 'ctl', 'sync': False}, pt={'e': 0.1, 'spin_ratio': [2.3, 1.0]},
                       trunc=6),
+           # direct calculate_terms / collapse_modes route, scalar and array susceptibility
+           _base_case(kind='direct', pt={'e': 0.05}), _base_case(kind='direct', pt={'e': 0.05}, as_array='all'),
+           _base_case(kind='direct', body={'sync': False, 'use_obl': True}, pt={'e': 0.2, 'obl': [0.3, 0.1]}, as_array='all',
+                      trunc=6, l_max=3),
            # witnesses of the two exception findings
            _base_case(body={'rheology': 'elastic'}, pt={'e': 0.05}),
            _base_case(body={'rheology': 'newton', 'sync': False}, pt={'e': 0.05, 'spin_ratio': [1.5, 1.0]})]
@@ -150,13 +155,14 @@ def fixed_cases(tier):
 def required_labels(tier):
     return ['spin:sync_none', 'spin:sync_explicit', 'spin:resonance', 'spin:retrograde', 'spin:generic', 'e:zero', 'e:pos',
             'obl:none', 'obl:zero', 'obl:on', 'scalar', 'array', 'clause:closed_form', 'clause:all_zero',
-            'clause:sign_checked', 'sign:outside_validity', 'kind:ctl_default', 'ctl_default:oop_checked', 'l_max:2', 'l_max:3'] + \
+            'clause:sign_checked', 'sign:outside_validity', 'kind:ctl_default', 'ctl_default:oop_checked', 'kind:direct',
+            'direct:array_susceptibility', 'direct:scalar_susceptibility', 'l_max:2', 'l_max:3'] + \
         ['rheo:' + r for r in tc.DISSIPATIVE + tc.NONDISSIPATIVE] + \
         (['trunc:%d' % t for t in tc.TRUNCS] if tc.shard_info() is None else [])
 
 
 def in_domain(case):
-    return case.get('kind') in ('single', 'ctl_default') and tc.case_in_domain(case)
+    return case.get('kind') in ('single', 'direct', 'ctl_default') and tc.case_in_domain(case)
 
 
 def _full(v, k):
@@ -194,6 +200,8 @@ def evaluate(case):
 
 
 def _evaluate(case):
+    if case['kind'] == 'direct':
+        return _evaluate_direct(case)
     from TidalPy.toolbox.quick_tides import quick_tidal_dissipation
     su = tc.Setup(case, dual=False)
     b = su.bodies[0]
@@ -251,6 +259,7 @@ def _evaluate(case):
         return c.result()
     if tc.TRANSIENT_RETRIES['count'] != retries0:
         c.label('numba_transient_retry')
+    tc.check_not_mutated(c, 'quick_tidal_dissipation')
     M = b.host_mass
     H = _full(res['tidal_heating'], k)
     dM = _full(res['dUdM'], k)
@@ -335,6 +344,113 @@ def _evaluate(case):
                 '%s: passive rheology inside the validity range (harness H_N=%r, H_20=%r) but heating=%r' % (ctx, ms.heating, ms20.heating, H))
     else:
         c.label('sign:not_passive')
+    return c.result()
+
+
+def _evaluate_direct(case):
+    """calculate_terms / collapse_modes called directly, the way quick_tidal_dissipation assembles them - but the mode
+    terms, the unique frequencies and the tidal susceptibility are computed ONCE and then collapsed three times (the
+    case's rheology, a second rheology, the first again), as a caller looping over rheologies / temperatures / layers (or
+    the object API, which keeps the susceptibility between orbit updates) does.  Every call is compared with the harness
+    per-mode sum and the closed form, the repeated call must reproduce the first one bit for bit, and no argument object
+    (arrays, dicts of arrays) may be modified by any call."""
+    from TidalPy.rheology.complex_compliance import known_models
+    from TidalPy.rheology.complex_compliance.complex_compliance import compliance_dict_helper
+    from TidalPy.tides.ctl_funcs import linear_dt
+    from TidalPy.tides.dissipation import calc_tidal_susceptibility
+    from TidalPy.tides.methods.global_approx import cpl_neg_imk_helper_func, ctl_neg_imk_helper_func
+    from TidalPy.tides.modes.mode_manipulation import find_mode_manipulators
+    from TidalPy.utilities.conversions import orbital_motion2semi_a
+    su = tc.Setup(case, dual=False)
+    b = su.bodies[0]
+    k = su.k
+    as_arr = bool(su.as_array)
+    variants = [b, tc.variant_body(su, case), b]
+    lab = ['kind:direct', 'l_max:%d' % su.l_max, 'trunc:%d' % su.trunc, 'array' if as_arr else 'scalar',
+           'direct:array_susceptibility' if as_arr else 'direct:scalar_susceptibility']
+    lab += list(dict.fromkeys('rheo:' + v.rheology for v in variants))
+    sums = [tc.mode_sum(su, variants[0]), tc.mode_sum(su, variants[1])]
+    sums.append(sums[0])
+    if not all(ms.finite for ms in sums):
+        return discard('nonfinite_compliance', lab)
+    c = Collector(labels=lab)
+    explicit_sync = (not b.sync) and bool(np.all(b.spin == su.n))
+    sync = b.sync or explicit_sync
+    obl_zero = b.obl is None or bool(np.all(b.obl == 0.0))
+    c.nontrivial = bool((not sync) and any(su.e[j] > 0.01 and sums[0].n_freq[j] >= 5 for j in range(k)))
+    conv = (lambda v: np.array(v, dtype=float)) if as_arr else (lambda v: float(v[0]))      # noqa: E731
+    M = b.host_mass
+    n = conv(su.n)
+    spin = n if b.sync else conv(b.spin)            # quick_tidal_dissipation passes the very same object when spin-locked
+    e = conv(su.e)
+    obl = conv(b.obl) if b.obl is not None else (np.zeros(k) if as_arr else 0.0)
+    with repo_call('direct: tables, calculate_terms'):
+        calc_terms, collapse, ecc_func, inc_func = find_mode_manipulators(
+            max_order_l=su.l_max, eccentricity_truncation_lvl=su.trunc, use_obliquity=b.obl is not None)
+        a = orbital_motion2semi_a(n, M, b.mass)
+        chi = calc_tidal_susceptibility(M, b.R, a)
+        ecc = ecc_func(e)
+        inc = inc_func(obl)
+        before = tc.snapshot((spin, n, a, ecc, inc))
+        uf, terms = calc_terms(spin, n, a, b.R, ecc, inc, multiply_modes_by_sign=True)
+    mut = tc.differences(before, (spin, n, a, ecc, inc), 'calculate_terms_args')
+    c.check(not mut, {'clause': 'inputs_not_mutated', 'fn': 'calculate_terms'},
+            'calculate_terms modified its arguments in place: %s' % mut[:6])
+    ctx = 'direct l_max=%d trunc=%d e=%r n=%r spin=%r obl=%r as_array=%r' % (
+        su.l_max, su.trunc, su.e.tolist(), su.n.tolist(), 'None' if b.sync else b.spin.tolist(),
+        None if b.obl is None else b.obl.tolist(), su.as_array)
+    first = None
+    for i, (v, ms) in enumerate(zip(variants, sums)):
+        cpl_ctl = v.rheology in ('cpl', 'ctl')
+        try:
+            with repo_call('direct: compliance + collapse_modes'):
+                if v.rheology == 'cpl':
+                    shear, cdict = 1.0, cpl_neg_imk_helper_func(uf, v.fixed_k2, v.fixed_q)
+                elif v.rheology == 'ctl':
+                    dt = v.fixed_dt if v.fixed_dt is not None else (1.0 / v.fixed_q) * (1.0 / n)
+                    shear, cdict = 1.0, ctl_neg_imk_helper_func(uf, v.fixed_k2, linear_dt, (dt,))
+                else:
+                    shear, visc = conv(v.shear), conv(v.visc)
+                    cdict = compliance_dict_helper(uf, known_models[v.rheology], (shear ** (-1), visc), v.inputs)
+                args = (v.g, v.R, v.rho, shear, v.tidal_scale, M, chi, cdict, terms)
+                before = tc.snapshot(args)
+                out = collapse(*args, max_order_l=su.l_max, cpl_ctl_method=cpl_ctl)
+        except RepoRaised as ex:
+            if tc.known_exception_class(v, ms, ex.exc) is not None:
+                return discard('excluded_known_finding', lab)       # KF-C10-newton-zero-frequency, reported by kind 'single'
+            raise
+        names = ('gravity', 'radius', 'density', 'shear_modulus', 'tidal_scale', 'tidal_host_mass', 'tidal_susceptibility',
+                 'complex_compliance_by_frequency', 'tidal_terms_by_frequency')
+        mut = []
+        for nm, x, y in zip(names, before, args):
+            mut += tc.differences(x, y, nm)
+        c.check(not mut, {'clause': 'inputs_not_mutated', 'fn': 'collapse_modes'},
+                '%s call %d (rheology %s): collapse_modes modified its caller\'s argument(s) in place: %s' % (ctx, i + 1, v.rheology, mut[:6]))
+        H, dM, dw, dO = (_full(x, k) for x in out[:4])
+        if not c.check(bool(np.all(np.isfinite(H)) and np.all(np.isfinite(dM)) and np.all(np.isfinite(dw)) and np.all(np.isfinite(dO))),
+                       {'clause': 'finite', 'route': 'direct'}, '%s call %d: H=%r dUdM=%r' % (ctx, i + 1, H, dM)):
+            continue
+        for name, got, ref, scale in (('heating', H, ms.heating, ms.s_heating), ('dUdM', dM, ms.dUdM, ms.s_dUdM),
+                                      ('dUdw', dw, ms.dUdw, ms.s_dUdw), ('dUdO', dO, ms.dUdO, ms.s_dUdO)):
+            d = np.abs(got - ref)
+            c.check(bool(np.all(d <= TOL * scale)), {'clause': 'grouping', 'what': name, 'route': 'direct'},
+                    '%s call %d of collapse_modes on the same terms/susceptibility (rheology %s): %s=%r  ungrouped mode sum=%r  '
+                    '|diff|=%r tol=%r' % (ctx, i + 1, v.rheology, name, got, ref, d, TOL * scale))
+        resid = np.abs(H - M * (su.n * dM - v.spin * dO))
+        c.check(bool(np.all(resid <= TOL * ms.s_identity)), {'clause': 'identity', 'what': 'heating_vs_potential_derivatives', 'route': 'direct'},
+                '%s call %d: heating=%r M(n dUdM - spin dUdO)=%r' % (ctx, i + 1, H, M * (su.n * dM - v.spin * dO)))
+        if sync and obl_zero and su.trunc == 2 and su.l_max == 2:
+            c.label('clause:closed_form')
+            kn, _, _ = tc.body_love(v, 2, su.n)
+            ref = 10.5 * tc.G_SI * M * M * v.R ** 5 * su.n * su.e ** 2 / su.a ** 6 * (-(kn * np.ones(k)).imag * v.tidal_scale)
+            c.check(bool(np.all(np.abs(H - ref) <= TOL * np.abs(ref))), {'clause': 'closed_form', 'route': 'direct'},
+                    '%s call %d (rheology %s): heating=%r  (21/2)(-Im k2) G M^2 R^5 n e^2/a^6=%r' % (ctx, i + 1, v.rheology, H, ref))
+        if i == 0:
+            first = (H, dM, dw, dO)
+        elif i == 2:
+            same = all(np.array_equal(x, y, equal_nan=True) for x, y in zip(first, (H, dM, dw, dO)))
+            c.check(same, {'clause': 'repeatable', 'route': 'direct'},
+                    '%s: third call (same rheology and same input objects as the first) returned %r, first call %r' % (ctx, (H, dM), first[:2]))
     return c.result()
 
 
